@@ -42,7 +42,8 @@ SHRINK_BUDGET_S = {"quick": 20.0, "thorough": 60.0}
 RULE = (
     "each case is one replication scheme (primary-backup ASYNC/SEMI_SYNC/SYNC with 1-4 backups; chain of 2-5 nodes with "
     "CRAQ on/off and reads at every node; 2-4 multi-leader nodes with concurrent writers on different leaders, one of four "
-    "resolvers and periodic anti-entropy; ReplicatedStore with 2-5 replicas and concurrent clients) with 2-60 writes of "
+    "resolvers and periodic anti-entropy driven as a daemon chain from t=0 (workload immediately, or after >= 1 idle tick and in bursts "
+    "separated by idle ticks) or by explicit post-hoc rounds; ReplicatedStore with 2-5 replicas and concurrent clients) with 2-60 writes of "
     "unique values over a small key space, per-node store latencies, and a scenario class that fixes the delay/fault model "
     "(reorder: keyed jittered/straggler delays; fifo: constant per-link delay; distinct: every key written once; faulty: "
     "loss and partition windows, only ack/read relations judged; craq-avoid; rs-put / rs-delete); non-trivial = at least one "
@@ -83,7 +84,11 @@ ASSUMPTIONS = [
     "multi-leader 'anti-entropy having run' is read generously: after the last write's replication traffic has drained, "
     "anti-entropy continues until every ordered pair of leaders has completed >= min_sweeps request exchanges AND the stores are "
     "equal, or until max_sweeps (10) such sweeps; only divergence that survives max_sweeps is a violation; slower-than-one-sweep "
-    "convergence is reported as probe.ml_needed_extra_sweeps",
+    "convergence is reported as probe.ml_needed_extra_sweeps; anti-entropy is armed through the public API in three styles (self-re-arming "
+    "daemon chain with the workload starting right away; the same chain with the workload starting after >= 1 tick and idle gaps of "
+    "several ticks between write bursts; explicit AntiEntropy events scheduled after the writes); if ~330 intervals after the last "
+    "write some ordered pair still has not exchanged min_sweeps requests the periodic anti-entropy is not running: replicas that "
+    "differ then are a violation (anti-entropy-stalled), replicas that agree are only counted (obs.ae_pairs_never_covered)",
     "resolvers given to multi-leader are deterministic and symmetric (LWW, VectorClockMerge with LWW fallback or a symmetric merge "
     "function, CustomResolver with a symmetric function); an asymmetric user function could legitimately diverge",
     "KVStore capacity is unlimited (FIFO eviction under reordering is not explored)",
@@ -99,8 +104,9 @@ EXPECTED_PROBES = [
     "probe.converged_despite_overtake", "probe.rs_concurrent_same_key",
     "probe.stale_write_skipped", "probe.ack_reflected_by_later_write",
     "probe.craq_read_forwarded_after_recheck", "probe.craq_commit_left_key_dirty",
+    "probe.ml_first_tick_found_leader_empty", "probe.ml_idle_ticks_between_bursts", "probe.ml_posthoc_rounds",
 ]
-SHRINK_SKIP = ("scheme", "klass", "mode", "resolver", "rcl", "wcl")
+SHRINK_SKIP = ("scheme", "klass", "mode", "resolver", "rcl", "wcl", "ae_style")
 
 MAX_SWEEPS = 10
 
@@ -266,6 +272,35 @@ def gen(rng: random.Random, tier: str) -> dict:
         else:
             sc["ae_phase"] = [round(rng.random() * sc["ae_interval"], 6) for _ in range(sc["n"])]
         sc["min_sweeps"] = rng.choice([1, 2, 2, 3])
+        # how anti-entropy is driven:
+        #   chain      - the self-re-arming daemon chain, armed before the run (first tick at ae_interval / ae_phase),
+        #                writes start right away (the first tick usually finds data);
+        #   chain-idle - same chain, but the workload starts only after >= 1 tick (leaders are empty when their timer
+        #                first fires, as in examples/distributed/multi_leader_replication.py) and the writes come in
+        #                bursts separated by idle gaps of several ticks;
+        #   posthoc    - no chain armed up front; explicit AntiEntropy events are scheduled for every leader after the
+        #                last write (as tests/unit/components/replication/test_multi_leader.py does).
+        style = rng.choices(["chain", "chain-idle", "posthoc"], weights=[40, 40, 20])[0]
+        sc["ae_style"] = style
+        iv = sc["ae_interval"]
+        if style == "chain-idle":
+            n_bursts = rng.randint(1, 3)
+            cuts = sorted(rng.sample(range(1, len(ops)), min(n_bursts - 1, len(ops) - 1))) if len(ops) > 1 else []
+            base_prev = 0.0
+            start = [0] + cuts
+            for bi, lo in enumerate(start):
+                hi = start[bi + 1] if bi + 1 < len(start) else len(ops)
+                t0 = ops[lo]["t"]
+                # this burst begins (1..4 ticks + a fraction) after the previous one ended
+                begin = base_prev + iv * (rng.randint(1, 4) + rng.random())
+                for o in ops[lo:hi]:
+                    o["t"] = round(begin + (o["t"] - t0), 6)
+                base_prev = ops[hi - 1]["t"]
+            ops.sort(key=lambda o: o["t"])
+        elif style == "posthoc":
+            last = max(o["t"] for o in ops)
+            sc["ae_phase"] = [round(last + dmax + 2 * max(sc["wlat"]) + rng.random() * iv, 6) for _ in range(sc["n"])]
+        sc["klass"] = f"ml-{klass}/{style}"
     return sc
 
 
@@ -354,6 +389,8 @@ def _validate(sc):
             raise InvalidScenario("resolver")
         if not isinstance(sc.get("ae_interval"), (int, float)) or sc["ae_interval"] < 1e-5:
             raise InvalidScenario("ae_interval")
+        if sc.get("ae_style", "chain") not in ("chain", "chain-idle", "posthoc"):
+            raise InvalidScenario("ae_style")
         if not isinstance(sc.get("min_sweeps", 1), int) or not 1 <= sc.get("min_sweeps", 1) <= MAX_SWEEPS:
             raise InvalidScenario("min_sweeps")
     if scheme == "rs":
@@ -590,6 +627,12 @@ class Ctx:
                 raise self.pending
         self.obs.on_event(ev, mon)
         if self.scheme == "ml":
+            if ev.event_type == "AntiEntropy" and not isinstance(ev, hz.ProcessContinuation):
+                if not ev.target._versions:
+                    self.flag("probe.ml_first_tick_found_leader_empty")
+                elif 0 < self.acked < self.n_writes and self.obs.inflight["Replicate"] == 0 \
+                        and not any(st.n_inflight for st in self.m["stores"]):
+                    self.flag("probe.ml_idle_ticks_between_bursts")
             self._ml_poll()
         if self.pending is not None:
             raise self.pending
@@ -651,7 +694,7 @@ def run(sc: dict) -> dict:
         def decide(now_s):
             return _ml_decide(ctx, now_s)
 
-        conductor = hz.Conductor("conductor", decide, interval * 0.37, max_ticks=200 * MAX_SWEEPS)
+        conductor = hz.Conductor("conductor", decide, interval * 0.37, max_ticks=900)  # ~330 anti-entropy intervals
         extra.append(conductor)
     sim = Simulation(entities=[*m["entities"], *extra])
     cap = {"pb": 40_000, "chain": 40_000, "ml": 150_000, "rs": 20_000}[scheme]
@@ -681,7 +724,9 @@ def run(sc: dict) -> dict:
         for i, nd in enumerate(nodes):
             ph = (sc.get("ae_phase") or [0.0])[i % len(sc.get("ae_phase") or [0.0])]
             if ph and ph > 0:
-                e = Event(time=Instant.from_seconds(ph), event_type="AntiEntropy", target=nd, daemon=True)
+                # chain styles: a daemon first tick at an explicit phase; posthoc: an explicit (non-daemon) round after the writes
+                e = Event(time=Instant.from_seconds(ph), event_type="AntiEntropy", target=nd,
+                          daemon=sc.get("ae_style", "chain") != "posthoc")
             else:
                 e = nd.get_anti_entropy_event()
             if e is not None:
@@ -720,7 +765,15 @@ def run(sc: dict) -> dict:
                 sig, msg = _rs_divergence(ctx)
         elif scheme == "ml":
             if ctx.sweeps_needed is None and _min_pair_sweeps(ctx) < MAX_SWEEPS:
-                c["harness.ae_coverage_cap"] = 1  # tick cap reached before the sweeps completed: not judged
+                # ~330 anti-entropy intervals after the last write some ordered pair still has not exchanged min_sweeps
+                # requests: periodic anti-entropy was armed through the public API and is not running.  If the replicas
+                # agree nevertheless nothing in the statement is broken (counted); if they differ, the divergence that
+                # anti-entropy exists to repair is permanent.
+                c["obs.ae_pairs_never_covered"] = 1
+                judged_conv = True
+                if not _maps_equal(stores):
+                    diverged = True
+                    sig, msg = _ml_stalled(ctx)
             else:
                 judged_conv = True
                 if not _maps_equal(stores):
@@ -767,6 +820,8 @@ def run(sc: dict) -> dict:
         if ctx.first_equal_sweep is not None:
             c[f"ml.first_equal_after_sweeps.{min(ctx.first_equal_sweep, 4)}"] = 1
         c["ml.ae_syncs"] = sum(s.anti_entropy_syncs for s in st)
+        if sc.get("ae_style") == "posthoc" and ctx.sweeps_needed is not None:
+            c["probe.ml_posthoc_rounds"] = 1
     if scheme == "rs" and any(s.overlapped_puts for s in stores):
         c["probe.rs_concurrent_same_key"] = 1
     for k in ("probe.ack_reflected_by_later_write",):
@@ -889,6 +944,22 @@ def _ml_decide(ctx, now_s) -> bool:
     if sweeps >= MAX_SWEEPS:
         return True
     return False
+
+
+def _ml_stalled(ctx):
+    stores, nodes = ctx.m["stores"], ctx.m["nodes"]
+    key, i = _divergence(stores, None)
+    tq = ctx.t_quiet_ns
+    names = [nd.name for nd in nodes]
+    silent = [a for a in names
+              if not any(t >= (tq or 0) for b in names if b != a for t in ctx.obs.ae_req_arrived.get((a, b), ()))]
+    detail = "leader-sent-no-round-after-writes" if silent else "pairs-never-covered"
+    syncs = {nd.name: nd.stats.anti_entropy_syncs for nd in nodes}
+    return (f"C17/converge/LeaderNode/anti-entropy-stalled/{detail}",
+            f"anti-entropy (interval {ctx.sc['ae_interval']}s, style {ctx.sc.get('ae_style', 'chain')}) was armed on every leader, writes stopped "
+            f"at t={ctx.t_last_write:.6f}s and ~330 intervals later {nodes[0].name} holds {key}={stores[0].snapshot().get(key)!r} but "
+            f"{nodes[i].name} holds {stores[i].snapshot().get(key)!r}; leaders that sent no anti-entropy request after the writes: {silent}; "
+            f"anti_entropy_syncs per leader: {syncs}")
 
 
 def _ml_divergence(ctx):
